@@ -92,6 +92,13 @@ func main() {
 			usage()
 		}
 		execCmd(os.Args[2], os.Args[3])
+	case "stress": // data-race companion of C07; build this binary with -race
+		fs := flag.NewFlagSet("stress", flag.ExitOnError)
+		d := fs.Duration("d", 8*time.Second, "duration")
+		g := fs.Int("g", 16, "goroutines")
+		out := fs.String("out", "", "stats JSON")
+		fs.Parse(os.Args[2:])
+		os.Exit(stressCmd(*d, *g, envSeed("quick"), *out))
 	case "replay":
 		fs := flag.NewFlagSet("replay", flag.ExitOnError)
 		quiet := fs.Bool("quiet", false, "")
